@@ -237,6 +237,25 @@ pub fn encode_safe_request(before: &Tree, mode: &str, cmds: &[(String, Vec<Act>)
     format!("safe {} {} {} {}", mode, f[4], f[6], f[7])
 }
 
+/// `projsafe <tr> <rec> <base> <inputs> <tree> <cmds>`: asks the model for the executable side conditions of the
+/// whole-project theorems (C08 `whole_project_build_twice_eq_once`, C09 `needed_project_eq_build_project`) on this tree,
+/// and whether their conclusions hold in the model
+pub fn encode_projsafe_request(before: &Tree, cfg: &RunCfg, cmds: &[(String, Vec<Act>)], base_abs: &str) -> String {
+    let full = encode_request(before, cfg, cmds, base_abs);
+    let f: Vec<&str> = full.split(' ').collect();
+    format!("projsafe {} {} {} {} {} {}", f[2], f[3], f[4], f[5], f[6], f[7])
+}
+
+/// key=value pairs of a `projsafe` answer
+pub fn parse_projsafe_response(s: &str) -> Option<std::collections::BTreeMap<String, String>> {
+    let mut m = std::collections::BTreeMap::new();
+    for kv in s.trim().split(' ') {
+        let (k, v) = kv.split_once('=')?;
+        m.insert(k.to_string(), v.to_string());
+    }
+    if m.contains_key("needed") && m.contains_key("twice") { Some(m) } else { None }
+}
+
 /// (safe, unsafe, skipped, names of the unsafe sources)
 pub fn parse_safe_response(s: &str) -> Option<(usize, usize, usize, Vec<String>)> {
     let f: Vec<&str> = s.trim().split(' ').collect();
